@@ -124,3 +124,52 @@ package itertools
 //@     invariant forall t in j..b.k: b.data[t] == old(b.data)[t]
 //@     invariant old(b.data)[0] != b.n - b.k
 //@     decreases b.k - 1 - j
+
+// ---- LexicographicPermutations / MultisetPermutations (Knuth's Algorithm L on iter.a)
+// asc(a, m): the largest j < m with a[j] < a[j+1], or -1; gt(a, m, x): the largest l < m with a[l] > x, or -1.
+// Next is specified as a function of the old contents: with J = asc(a, n-1) it fails iff J < 0; otherwise,
+// with L = gt(a, n, a[J]), the prefix below J is kept, position J receives a[L], and the suffix is the old
+// suffix with a[L] replaced by a[J], reversed. (That this step is the lexicographic successor is the textbook
+// argument for Algorithm L and part of meta-argument A7.)
+//@ spec asc(a []int, m int) int = (m <= 0 ? -1 : (a[m-1] < a[m] ? m-1 : asc(a, m-1)))
+//@ spec gt(a []int, m int, x int) int = (m <= 0 ? -1 : (a[m-1] > x ? m-1 : gt(a, m-1, x)))
+
+//@ func LexicographicPermutations
+//@   requires 0 <= n && n <= 16777216
+//@   ensures fresh(result) && fresh(result.a) && result.n == n && len(result.a) == n && result.first
+//@   ensures forall t in 0..n: result.a[t] == t
+//@   loop 1
+//@     invariant -1 <= rangeindex && (rangeindex < len(a) || (len(a) == 0 && rangeindex == -1)) && len(a) == n
+//@     invariant forall t in 0..rangeindex+1: a[t] == t
+//@     decreases len(a) - rangeindex
+
+//@ func (*LexicographicPermutationIterator).Next
+//@   requires 0 <= iter.n && iter.n <= 16777216 && len(iter.a) == iter.n
+//@   modifies iter, iter.a
+//@   ensures iter.n == old(iter.n) && sameslice(iter.a, old(iter.a)) && !iter.first
+//@   ensures [first] old(iter.first) ==> result && (forall t in 0..iter.n: iter.a[t] == old(iter.a)[t])
+//@   ensures [last] !old(iter.first) ==> (result <==> asc(old(iter.a), iter.n - 1) >= 0)
+//@   ensures [last2] !old(iter.first) && !result ==> (forall t in 0..iter.n: iter.a[t] == old(iter.a)[t])
+//@   ensures [prefix] !old(iter.first) && result ==> (forall t in 0..asc(old(iter.a), iter.n - 1): iter.a[t] == old(iter.a)[t])
+//@   ensures [pivot] !old(iter.first) && result ==> gt(old(iter.a), iter.n, old(iter.a)[asc(old(iter.a), iter.n - 1)]) > asc(old(iter.a), iter.n - 1) && iter.a[asc(old(iter.a), iter.n - 1)] == old(iter.a)[gt(old(iter.a), iter.n, old(iter.a)[asc(old(iter.a), iter.n - 1)])]
+//@   ensures [suffix] !old(iter.first) && result ==> (forall p in asc(old(iter.a), iter.n - 1)+1..iter.n: iter.a[p] == ((iter.n + asc(old(iter.a), iter.n - 1) - p == gt(old(iter.a), iter.n, old(iter.a)[asc(old(iter.a), iter.n - 1)])) ? old(iter.a)[asc(old(iter.a), iter.n - 1)] : old(iter.a)[iter.n + asc(old(iter.a), iter.n - 1) - p]))
+//@   opt patterns=simple
+//@   loop 1
+//@     invariant (-1 <= j || (j == n - 4 && n <= 2)) && j <= n - 4 && 0 <= n && n == iter.n && n == old(iter.n) && len(iter.a) == n && sameslice(iter.a, old(iter.a)) && !old(iter.first) && !iter.first
+//@     invariant forall t in 0..n: iter.a[t] == old(iter.a)[t]
+//@     invariant asc(old(iter.a), n - 1) == asc(old(iter.a), j + 1)
+//@     decreases j + 4
+//@   loop 2
+//@     invariant 0 <= j && j <= n - 4 && j + 1 <= l && l <= n - 2 && n == iter.n && n == old(iter.n) && len(iter.a) == n && sameslice(iter.a, old(iter.a)) && !old(iter.first) && !iter.first
+//@     invariant forall t in 0..n: iter.a[t] == old(iter.a)[t]
+//@     invariant asc(old(iter.a), n - 1) == j && iter.a[j] < iter.a[j+1] && iter.a[j] >= iter.a[n-1]
+//@     invariant gt(old(iter.a), n, old(iter.a)[j]) == gt(old(iter.a), l + 1, old(iter.a)[j])
+//@     decreases l
+//@   loop 3
+//@     invariant 0 <= j && j <= n - 4 && j + 2 <= k && k <= l + 1 && l <= n - 2 && k + l == n + j && n == iter.n && n == old(iter.n) && len(iter.a) == n && sameslice(iter.a, old(iter.a)) && !old(iter.first) && !iter.first
+//@     invariant forall t in 0..j+2: iter.a[t] == pre(iter.a)[t]
+//@     invariant iter.a[n-1] == pre(iter.a)[n-1]
+//@     invariant forall t in k..l+1: iter.a[t] == pre(iter.a)[t]
+//@     invariant forall t in j+2..k: iter.a[t] == pre(iter.a)[n + j - t]
+//@     invariant forall t in l+1..n-1: iter.a[t] == pre(iter.a)[n + j - t]
+//@     decreases l - k + 1
